@@ -23,9 +23,9 @@
 //   NKEYS individually scripted keys; BULK further keys acted on as one group; NCYC cycles in which the source acts;
 //   EXTRA_OPS 1: an absent key may also be created without a value (phantom) or be added and removed within one cycle;
 //   FMASK bit set of the mapped functions explored: bit 0 inc, 1 running sum, 2 key-consuming, 3 self-scheduling,
-//         4 broadcast argument, 5 late (silent first tick)
+//         4 broadcast argument, 5 late (silent first tick), 6 sampler (timer armed in the node's start hook, PASSIVE element input)
 #ifndef CONFIGS
-#define CONFIGS {3, 0, 3, 0, 10}, {2, 0, 3, 0, 63}, {1, 4, 3, 0, 63}, {2, 0, 3, 1, 35}
+#define CONFIGS {3, 0, 3, 0, 10}, {2, 0, 3, 0, 127}, {1, 4, 3, 0, 127}, {2, 0, 3, 1, 99}
 #endif
 
 using namespace hk;
@@ -57,6 +57,7 @@ struct Inst {
     Int sum = 0;
     Int cnt = 0;
     Int pending = -1;   // cycle of the pending self-scheduled wake-up
+    bool armed = false; // sampler: the start hook has run
     Int wakes = 0;
     bool out_valid = false;
     Int out = 0;
@@ -70,7 +71,7 @@ int g_obs_runs = 0;
 int g_checks = 0;
 bool ok_keys = true, ok_valid = true, ok_value = true, ok_ticks = true, ok_foreign = true, ok_notified = true;
 bool r_removed = false, r_readd = false, r_fresh = false, r_phantom = false, r_three = false, r_five = false, r_wake = false,
-     r_wake_dropped = false, r_bcast = false, r_silent = false, r_slot_reuse = false, r_stale_invalid = false;
+     r_wake_dropped = false, r_bcast = false, r_silent = false, r_slot_reuse = false, r_stale_invalid = false, r_start_timer = false;
 bool ever_removed = false;
 bool had_state[MAXK];
 bool m_late[MAXK];        // key is in the late-valid situation (finding M1)
@@ -118,6 +119,19 @@ struct FLate {
     static void eval(In<"x", TS<Int>> x, State<Int> cnt, Out<TS<Int>> out) {
         cnt.set(cnt.get() + 1);
         if (cnt.get() >= 2) out.set((Int)((U)x.value() + 7));
+    }
+};
+
+// Per-key sampler: its only element input is PASSIVE, its timer is armed in the start hook, so the child is NOT due in
+// the cycle its key appears; the map must pick the child's future deadline up although it did not evaluate the child.
+// Samples twice (one and two cycles after creation): x + 1000 * n.
+struct FSampler {
+    static constexpr auto name = "f_sampler";
+    static void start(NodeScheduler s) { s.schedule(MIN_TD); }
+    static void eval(In<"x", TS<Int>, InputActivity::Passive> x, State<Int> n, NodeScheduler s, Out<TS<Int>> out) {
+        n.set(n.get() + 1);
+        if (n.get() < 2) s.schedule(MIN_TD);
+        out.set((Int)((U)x.value() + 1000 * (U)n.get()));
     }
 };
 
@@ -217,16 +231,24 @@ bool step_instance(int k, Int c) {
         r_readd = true;
         tick = true;
     }
-    if (a == A_PHANTOM) { i = Inst{}; i.exists = true; r_phantom = true; return false; }
+    if (a == A_PHANTOM) {
+        i = Inst{}; i.exists = true; r_phantom = true;
+        // A valueless key is published to the key-set delta only when its element validates.  A map that is already primed
+        // therefore starts the instance in that later cycle (m_late), an unprimed one starts it now (rebuild over all live slots).
+        if (g_func == 6 && !m_late[k]) { i.pending = c + 1; i.armed = true; }
+        return false;
+    }
     if (a == A_SET) {
         if (!i.exists) {
             if (ever_removed) r_slot_reuse = true;
             if (had_state[k]) r_fresh = true;
             i = Inst{}; i.exists = true;
+            if (g_func == 6) { i.pending = c + 1; i.armed = true; }   // timer armed in the start hook
         }
         tick = true;
     }
     if (!i.exists) return false;
+    if (tick && g_func == 6 && !i.armed) { i.pending = c + 1; i.armed = true; }   // late-valid key: instance starts at publication
     if (tick) { i.x = g_v[k]; i.x_valid = true; }
     bool wake = (i.pending == c);
     if (wake) i.pending = -1;
@@ -254,11 +276,18 @@ bool step_instance(int k, Int c) {
             i.out = (Int)((U)i.x + (U)m_b); i.out_valid = true; i.cnt++;
             if (g_btick && !tick) r_bcast = true;
             return true;
-        default:
+        case 5:
             if (!tick) return false;
             i.cnt++;
             if (i.cnt < 2) { r_silent = true; return false; }
             i.out = (Int)((U)i.x + 7); i.out_valid = true;
+            return true;
+        default:   // 6 sampler: ticks of x are passive; only the timer evaluates the node, and only with a valid x
+            if (!wake || !i.x_valid) return false;
+            i.cnt++;
+            if (i.cnt == 1) r_start_timer = true;
+            if (i.cnt < 2) i.pending = c + 1;
+            i.out = (Int)((U)i.x + 1000 * (U)i.cnt); i.out_valid = true;
             return true;
     }
 }
@@ -345,7 +374,8 @@ struct Top {
             case 2: m = map_over<FKeyed, 2>(w, {d.erased()}); break;   // arity = args + 1: the key is the leading parameter
             case 3: m = map_over<FSched, 1>(w, {d.erased()}); break;
             case 4: m = map_over<FBcast, 2>(w, {d.erased(), b.erased()}); break;
-            default: m = map_over<FLate, 1>(w, {d.erased()}); break;
+            case 5: m = map_over<FLate, 1>(w, {d.erased()}); break;
+            default: m = map_over<FSampler, 1>(w, {d.erased()}); break;
         }
         Port<Dict> mp{w, m};
         auto o = wire<Obs>(w, mp);
@@ -360,8 +390,8 @@ extern "C" int harness_main() {
     NKEYS = G.nkeys; BULK = G.bulk; NK = NKEYS + BULK; NCYC = G.ncyc;
     if (NK > MAXK) { verif_fail("C10.harness_configuration"); return 0; }
     {
-        int funcs[6], nf = 0;
-        for (int f = 0; f < 6; f++) if (G.fmask & (1 << f)) funcs[nf++] = f;
+        int funcs[7], nf = 0;
+        for (int f = 0; f < 7; f++) if (G.fmask & (1 << f)) funcs[nf++] = f;
         if (nf == 0) { verif_fail("C10.harness_configuration"); return 0; }
         g_func = funcs[nf > 1 ? verif_choice("func", nf) : 0];
     }
@@ -387,6 +417,7 @@ extern "C" int harness_main() {
     if (r_bcast) verif_reach("broadcast_tick_alone");
     if (r_silent) verif_reach("live_key_without_valid_output");
     if (r_late_valid) verif_reach("late_valid_key_after_map_primed");
+    if (r_start_timer) verif_reach("child_timer_armed_in_start_not_due_at_creation");
     if (r_stale_invalid) verif_reach("observed_stale_invalid_element_for_absent_key");
     verif_log("obs_runs", g_obs_runs);
     verif_reach("end");
